@@ -21,6 +21,15 @@ package main
 // reset by every other callback) and ignore calls that are not made on the SendBatch goroutine
 // (e.g. a derived context's cancel function run by context.AfterFunc in its own goroutine).
 //
+// The back-off sleep of SendBatch (sleepAndIncreaseBackoff, and contextOfCalls which builds the
+// context it sleeps under) is recognised by the probes from the call stack (inBackoffSleep): inside
+// it the batch context is cancelled (cancel 's') and/or the own contexts listed in bRound.sleepOwn
+// are (at the first probe there, at the batch context's Done(), or one by one). The harness records
+// in which round every own context was cancelled (ownAt) and reports, per round, the calls whose own
+// context is done by the time that round's back-off sleep is under way ('gone': the model ends the
+// sleep, and SendBatch, when all calls about to be retried are among them). A call with noOwn has
+// no context of its own (Context() is context.Background()).
+//
 // A call that is located while its region is unavailable AND its own context is done (done before
 // SendBatch, or cancelled at a wait in an earlier round) is expected to be given up on alone: for
 // it the harness neither cancels the batch context nor closes the client, and reports the location
@@ -72,7 +81,7 @@ func init() {
 			k := 0
 			for _, setup := range c11Setups {
 				for _, late := range []bool{false, true} {
-					for _, q := range []int{2, 5} {
+					for _, q := range []int{1, 2, 5} {
 						if k%nsh == shard {
 							emit(c12WireCase(setup, late, q))
 						}
@@ -115,6 +124,12 @@ type bRound struct {
 	ans      []bAns
 	cancel   byte // 0 | 'w' at the wait on cancelID | 'e' after the error of cancelID was handled | 'a' | 's'
 	cancelID int
+	// own contexts cancelled inside the back-off sleep after this round (if there is one):
+	// mode 0: all at the first probe inside the sleep (a call's Context() in contextOfCalls, or the
+	// batch context's Done()); 1: all at the batch context's Done() inside the sleep; 2: the first
+	// one at the batch context's Done(), then one more at every later Context() inside the sleep
+	sleepOwn     []int
+	sleepOwnMode int
 }
 
 type bCase struct {
@@ -123,6 +138,7 @@ type bCase struct {
 	batchable []bool
 	region    []int
 	ownPre    []bool // own context already done before SendBatch
+	noOwn     []bool // the call has no context of its own (nil: none)
 	nReg      int
 	nSrv      int
 	rounds    []bRound
@@ -186,12 +202,16 @@ type vcall struct {
 	run     *bRun
 	id      int
 	own     *vctx
-	rcRound int // round of the last ResultChan() call
-	rcCount int // ResultChan() calls in that round
+	noOwn   bool // Context() is context.Background(): never done
+	rcRound int  // round of the last ResultChan() call
+	rcCount int  // ResultChan() calls in that round
 }
 
 func (v *vcall) Context() context.Context {
 	v.run.onCallCtx()
+	if v.noOwn {
+		return context.Background()
+	}
 	return v.own
 }
 
@@ -257,10 +277,14 @@ type bRun struct {
 	ctx    *vctx
 	vc     *gohbase.VerifClient
 	qlog   []qrec
-	armed  atomic.Bool // cancel inside the next back-off sleep
-	anom   []string
-	closed bool
-	gid    atomic.Uint64 // goroutine running SendBatch (0: not started)
+	armed  atomic.Bool // cancel the batch context inside the next back-off sleep
+	// own contexts to cancel inside the next back-off sleep (rd.sleepOwn) and how many of them were
+	ownArmed atomic.Bool
+	ownFired int
+	ownAt    []int // per call id: round in which its own context was cancelled (-1: before SendBatch; ownNever)
+	anom     []string
+	closed   bool
+	gid      atomic.Uint64 // goroutine running SendBatch (0: not started)
 	// region location
 	locating *vcall          // the call region location last asked for its key
 	locTok   map[[2]int]byte // (round, call id) -> how a location that found the region unavailable ended
@@ -273,11 +297,78 @@ func (r *bRun) onSendBatchGoroutine() bool {
 	return g != 0 && g == goid()
 }
 
-// the methods of a call are only used by the SendBatch goroutine (and, after the run, by multiView)
-func (r *bRun) onCallCtx() { r.armed.Store(false) }
+const ownNever = 1 << 30
+
+// inBackoffSleep: is the caller inside SendBatch's back-off sleep, i.e. is sleepAndIncreaseBackoff
+// or contextOfCalls (which prepares the context the sleep watches) on the call stack?
+func inBackoffSleep() bool {
+	var pcs [64]uintptr
+	n := runtime.Callers(2, pcs[:])
+	fr := runtime.CallersFrames(pcs[:n])
+	for {
+		f, more := fr.Next()
+		if strings.HasSuffix(f.Function, ".sleepAndIncreaseBackoff") ||
+			strings.HasSuffix(f.Function, ".contextOfCalls") {
+			return true
+		}
+		if !more {
+			return false
+		}
+	}
+}
+
+func (r *bRun) disarm() {
+	r.armed.Store(false)
+	r.ownArmed.Store(false)
+}
+
+// cancelOwn cancels a call's own context as scripted and remembers in which round.
+func (r *bRun) cancelOwn(v *vcall) {
+	if !v.own.isDone() && v.id < len(r.ownAt) {
+		r.ownAt[v.id] = r.round
+	}
+	v.own.cancel()
+}
+
+// fireSleepOwn: a probe inside the back-off sleep (atDone: the batch context's Done()).
+func (r *bRun) fireSleepOwn(atDone bool) {
+	rd := r.rd()
+	if rd == nil {
+		r.ownArmed.Store(false)
+		return
+	}
+	n := 0
+	switch rd.sleepOwnMode {
+	case 0:
+		n = len(rd.sleepOwn)
+	case 1:
+		if atDone {
+			n = len(rd.sleepOwn)
+		}
+	default:
+		if atDone || r.ownFired > 0 {
+			n = 1
+		}
+	}
+	for ; n > 0 && r.ownFired < len(rd.sleepOwn); n-- {
+		r.cancelOwn(r.calls[rd.sleepOwn[r.ownFired]])
+		r.ownFired++
+	}
+	if r.ownFired >= len(rd.sleepOwn) {
+		r.ownArmed.Store(false)
+	}
+}
+
+// the methods of a call are only used by the SendBatch goroutine (and, after the run, by multiView).
+// Context() is asked for by findClients, by the waits and by contextOfCalls (inside the sleep).
+func (r *bRun) onCallCtx() {
+	if r.ownArmed.Load() && r.onSendBatchGoroutine() && inBackoffSleep() {
+		r.fireSleepOwn(false)
+	}
+}
 
 func (r *bRun) onKey(v *vcall) {
-	r.armed.Store(false)
+	r.disarm()
 	r.locating = v
 }
 
@@ -297,7 +388,7 @@ func (r *bRun) rd() *bRound {
 }
 
 func (r *bRun) onLocate(v *vinfo) <-chan struct{} {
-	r.armed.Store(false)
+	r.disarm()
 	if r.inWait {
 		r.inWait = false
 		r.round++
@@ -397,7 +488,7 @@ func (r *bRun) deliver(v *vcall, a bAns) {
 }
 
 func (r *bRun) onQueue(s *vserver, rpcs []hrpc.Call) {
-	r.armed.Store(false)
+	r.disarm()
 	r.inWait = true
 	rd := r.rd()
 	rec := qrec{round: r.round, srv: s.id, calls: append([]hrpc.Call(nil), rpcs...)}
@@ -421,7 +512,7 @@ func (r *bRun) onQueue(s *vserver, rpcs []hrpc.Call) {
 }
 
 func (r *bRun) onResultChan(v *vcall) {
-	r.armed.Store(false)
+	r.disarm()
 	if v.rcRound != r.round {
 		v.rcRound = r.round
 		v.rcCount = 0
@@ -434,7 +525,7 @@ func (r *bRun) onResultChan(v *vcall) {
 	a := rd.ans[v.id]
 	if v.rcCount == 1 {
 		if a.own || a.kind == 'o' {
-			v.own.cancel()
+			r.cancelOwn(v)
 		}
 		if rd.cancel == 'w' && rd.cancelID == v.id {
 			r.ctx.cancel()
@@ -458,24 +549,36 @@ func (r *bRun) onCtxErr() {
 		return
 	}
 	rd := r.rd()
-	if rd == nil || !r.inWait || (rd.cancel != 'a' && rd.cancel != 's') || !r.onSendBatchGoroutine() {
+	if rd == nil || !r.inWait || (rd.cancel != 'a' && rd.cancel != 's' && len(rd.sleepOwn) == 0) ||
+		!r.onSendBatchGoroutine() {
 		return
 	}
 	switch rd.cancel {
 	case 'a':
 		r.ctx.cancel()
+		return
 	case 's':
 		r.armed.Store(true)
+	}
+	if len(rd.sleepOwn) > 0 {
+		r.ownFired = 0
+		r.ownArmed.Store(true)
 	}
 }
 
 // onCtxDone: armed (by the check after the wait) and not disarmed by any other callback since
-// (a call's Context()/Key()/ResultChan(), a location, a QueueBatch): the SendBatch goroutine asks
-// for Done() inside sleepAndIncreaseBackoff. Done() is also called by other goroutines (a derived
-// context that is cancelled by context.AfterFunc asks its parent for Done() to unregister).
+// (a call's Key()/ResultChan(), a location, a QueueBatch), and the SendBatch goroutine asks for
+// Done() inside the back-off sleep: the select of sleepAndIncreaseBackoff, or context.WithCancel in
+// contextOfCalls registering the context the sleep watches with the batch context (findClients
+// derives contexts from the batch context in the same way: hence the look at the stack). Done() is
+// also called by other goroutines (a derived context that is cancelled by context.AfterFunc asks
+// its parent for Done() to unregister).
 func (r *bRun) onCtxDone() {
-	if !r.armed.Load() || !r.onSendBatchGoroutine() {
+	if (!r.armed.Load() && !r.ownArmed.Load()) || !r.onSendBatchGoroutine() || !inBackoffSleep() {
 		return
+	}
+	if r.ownArmed.Load() {
+		r.fireSleepOwn(true)
 	}
 	if r.armed.CompareAndSwap(true, false) {
 		r.ctx.cancel()
@@ -489,6 +592,8 @@ type bObs struct {
 	ms    int64
 	mp    string
 	ords  [][]int // per round: servers in QueueBatch order
+	ownAt []int   // per call id: round in which its own context was cancelled (nil: unknown)
+	qr    [][]int // per round: the ids handed to QueueBatch
 	alive []bool
 	anom  []string
 	loc   map[[2]int]byte // (round, id) -> observed end of a location that found the region unavailable
@@ -591,8 +696,10 @@ func runBatchCase(c *bCase) (obs bObs) {
 	run.vc.RegionsPut(other)
 	for id := 0; id < c.nIDs(); id++ {
 		own := newVctx(fmt.Errorf("verif: own context of call %d", id), nil)
+		run.ownAt = append(run.ownAt, ownNever)
 		if c.ownPre[id] {
 			own.cancel()
+			run.ownAt[id] = -1
 		}
 		tbl := "t"
 		if c.table[id] != 0 {
@@ -607,7 +714,8 @@ func runBatchCase(c *bCase) (obs bObs) {
 		if err != nil {
 			panic(err)
 		}
-		run.calls = append(run.calls, &vcall{Get: g, run: run, id: id, own: own, rcRound: -1})
+		run.calls = append(run.calls, &vcall{Get: g, run: run, id: id, own: own, rcRound: -1,
+			noOwn: id < len(c.noOwn) && c.noOwn[id]})
 	}
 	batch := make([]hrpc.Call, len(c.batch))
 	for i, id := range c.batch {
@@ -686,6 +794,10 @@ func runBatchCase(c *bCase) (obs bObs) {
 		}
 	}
 	for _, rec := range run.qlog {
+		for len(obs.qr) <= rec.round {
+			obs.qr = append(obs.qr, nil)
+		}
+		obs.qr[rec.round] = append(obs.qr[rec.round], rec.ids...)
 		qs = append(qs, fmt.Sprintf("%d:%d:%s", rec.round, rec.srv, dotInts(rec.ids)))
 		if rec.round < len(obs.ords) {
 			obs.ords[rec.round] = append(obs.ords[rec.round], rec.srv)
@@ -702,6 +814,7 @@ func runBatchCase(c *bCase) (obs bObs) {
 	}
 	if returned {
 		obs.loc = run.locTok
+		obs.ownAt = run.ownAt
 	}
 	return obs
 }
@@ -801,7 +914,15 @@ func (c *bCase) line(o bObs) string {
 		if r < len(o.ords) {
 			ord = o.ords[r]
 		}
-		rounds = append(rounds, strings.Join(locs, ".")+";"+strings.Join(anss, ".")+";"+dotInts(ord)+";"+cs)
+		// own contexts done by the time this round's back-off sleep is under way
+		var gone []int
+		for id := 0; id < c.nIDs() && id < len(o.ownAt); id++ {
+			if o.ownAt[id] <= r {
+				gone = append(gone, id)
+			}
+		}
+		rounds = append(rounds, strings.Join(locs, ".")+";"+strings.Join(anss, ".")+";"+dotInts(ord)+";"+cs+
+			";"+dotInts(gone))
 	}
 	rs := "-"
 	if len(rounds) > 0 {
@@ -893,11 +1014,13 @@ func (c *bCase) clone() *bCase {
 	d.batchable = append([]bool(nil), c.batchable...)
 	d.region = append([]int(nil), c.region...)
 	d.ownPre = append([]bool(nil), c.ownPre...)
+	d.noOwn = append([]bool(nil), c.noOwn...)
 	d.rounds = nil
 	for _, rd := range c.rounds {
 		e := rd
 		e.regSrv = append([]int(nil), rd.regSrv...)
 		e.ans = append([]bAns(nil), rd.ans...)
+		e.sleepOwn = append([]int(nil), rd.sleepOwn...)
 		d.rounds = append(d.rounds, e)
 	}
 	return &d
@@ -1437,6 +1560,175 @@ func genRandom(rng *RNG, count, maxRounds int, lateAnswers bool, cases *[]*bCase
 	}
 }
 
+// genSleepOwn: own contexts cancelled inside a back-off sleep. 1..3 calls; every assignment of
+// first answers over {retryable, not serving, ok, fatal} with at least one call to retry; the own
+// contexts of every subset of the calls are cancelled inside the sleep that follows (all of the calls
+// about to be retried: the sleep must end at once and SendBatch return with the errors of this round;
+// only some of them: the sleep runs to its end and the next round proceeds, the cancelled calls ending
+// with their answer or their own-context error); without and with one call that has no context of its
+// own, inside or outside the set of calls to retry; at the first probe inside the sleep, at the batch
+// context's Done(), or one by one; in the first back-off (when 0), in a later one (when 1: after a
+// round in which every call got a retryable error and the sleep completed) and in the back-off that
+// follows two immediate retries (when 2; with not-serving/server errors only it is the third
+// immediate retry in a row that asks for it).
+func genSleepOwn(maxCalls int, cases *[]*bCase) {
+	idx := 0
+	build := func(n int, kinds []byte, sub, noOwn, mode, when int) {
+		nr, ns := layoutFor(n, idx)
+		idx++
+		c := simpleCase(n, nr, ns)
+		c.noOwn = make([]bool, n)
+		if noOwn >= 0 {
+			c.noOwn[noOwn] = true
+		}
+		switch when {
+		case 1:
+			rd := c.addRound()
+			for i := 0; i < n; i++ {
+				rd.ans[i] = bAns{kind: 'r'}
+			}
+		case 2:
+			for q := 0; q < 2; q++ {
+				rd := c.addRound()
+				for i := 0; i < n; i++ {
+					rd.ans[i] = bAns{kind: 'n'}
+				}
+			}
+		}
+		rd := c.addRound()
+		for i := 0; i < n; i++ {
+			rd.ans[i] = bAns{kind: kinds[i]}
+			if sub&(1<<i) != 0 {
+				rd.sleepOwn = append(rd.sleepOwn, i)
+			}
+		}
+		if mode == 2 && len(rd.sleepOwn) > 1 && idx%2 == 0 {
+			// the other order: the first retried call's context ends after its AfterFunc was registered
+			for a, b := 0, len(rd.sleepOwn)-1; a < b; a, b = a+1, b-1 {
+				rd.sleepOwn[a], rd.sleepOwn[b] = rd.sleepOwn[b], rd.sleepOwn[a]
+			}
+		}
+		rd.sleepOwnMode = mode
+		// the round after the sleep (if the sleep completes): a retried call whose own context is done
+		// gets no answer, or one (which is used all the same); the others succeed
+		rd2 := c.addRound()
+		for i := 0; i < n; i++ {
+			switch {
+			case !isRetryKind(kinds[i]):
+			case sub&(1<<i) != 0 && (i+idx)%3 != 0:
+				rd2.ans[i] = bAns{kind: 'o'}
+			case (i+idx)%5 == 0:
+				rd2.ans[i] = bAns{kind: 'f'}
+			default:
+				rd2.ans[i] = bAns{kind: 'k'}
+			}
+		}
+		*cases = append(*cases, c)
+	}
+	for n := 1; n <= maxCalls; n++ {
+		total := 1
+		for i := 0; i < n; i++ {
+			total *= 4
+		}
+		for code := 0; code < total; code++ {
+			kinds := make([]byte, n)
+			x, retry, backoff := code, 0, false
+			for i := 0; i < n; i++ {
+				kinds[i] = "rnkf"[x%4]
+				x /= 4
+				if isRetryKind(kinds[i]) {
+					retry |= 1 << i
+				}
+				backoff = backoff || kinds[i] == 'r'
+			}
+			if retry == 0 {
+				continue
+			}
+			for sub := 1; sub < 1<<n; sub++ {
+				for noOwn := -1; noOwn < n; noOwn++ {
+					if noOwn >= 0 && sub&(1<<noOwn) != 0 {
+						continue // a context that does not exist cannot be cancelled
+					}
+					for mode := 0; mode < 3; mode++ {
+						for when := 0; when < 3; when++ {
+							if !backoff && when != 2 {
+								continue // immediate retry: no sleep (covered by genRandom's own cancels)
+							}
+							if n == 3 && (code+sub+mode+when)%2 == 1 && sub != retry {
+								continue // thin out the three-call cases that do not end the sleep
+							}
+							build(n, kinds, sub, noOwn, mode, when)
+						}
+					}
+				}
+			}
+		}
+	}
+	// the own contexts are done already when the sleep begins: cancelled before SendBatch or at the
+	// wait of the round (next to the retryable answer), for all calls to retry / all but one
+	for n := 1; n <= maxCalls; n++ {
+		for pre := 0; pre < 2; pre++ {
+			for keep := -1; keep < n; keep++ {
+				for noOwn := -1; noOwn < n; noOwn++ {
+					if noOwn >= 0 && noOwn != keep {
+						continue
+					}
+					nr, ns := layoutFor(n, idx)
+					idx++
+					c := simpleCase(n, nr, ns)
+					c.noOwn = make([]bool, n)
+					if noOwn >= 0 {
+						c.noOwn[noOwn] = true
+					}
+					rd := c.addRound()
+					rd2 := c.addRound()
+					for i := 0; i < n; i++ {
+						rd.ans[i] = bAns{kind: 'r'}
+						rd2.ans[i] = bAns{kind: 'k'}
+						if i == keep {
+							continue
+						}
+						rd2.ans[i] = bAns{kind: 'o'}
+						if pre == 1 {
+							c.ownPre[i] = true
+						} else {
+							rd.ans[i].own = true
+						}
+					}
+					*cases = append(*cases, c)
+				}
+			}
+		}
+	}
+}
+
+// genRandomSleepOwn: copies of random cases with own contexts cancelled inside a back-off sleep.
+func genRandomSleepOwn(rng *RNG, from []*bCase, every int, cases *[]*bCase) {
+	for _, b := range from {
+		if rng.Intn(every) != 0 || len(b.rounds) < 2 {
+			continue
+		}
+		c := b.clone()
+		r := rng.Intn(len(c.rounds) - 1)
+		rd := &c.rounds[r]
+		if rd.cancel != 0 {
+			continue
+		}
+		for id := 0; id < c.nIDs(); id++ {
+			if c.inRound(id, r) && isRetryKind(rd.ans[id].kind) && rng.Intn(4) != 0 {
+				rd.sleepOwn = append(rd.sleepOwn, id)
+			} else if rng.Intn(8) == 0 {
+				rd.sleepOwn = append(rd.sleepOwn, id)
+			}
+		}
+		if len(rd.sleepOwn) == 0 {
+			continue
+		}
+		rd.sleepOwnMode = rng.Intn(3)
+		*cases = append(*cases, c)
+	}
+}
+
 // genBackoffLadder: enough consecutive immediate retries to reach the back-off, then success.
 func genBackoffLadder(cases *[]*bCase) {
 	for _, seq := range []string{"nnnnk", "sssnk", "nsnsk", "nnrnk", "rnnnk", "nnnnf", "ssssk"} {
@@ -1449,6 +1741,52 @@ func genBackoffLadder(cases *[]*bCase) {
 			*cases = append(*cases, fromScripts(ss, n, 1))
 		}
 	}
+}
+
+// sleptThroughGiveUp: the one observation that depends on timing. When the own context of every call
+// about to be retried is done, what ends the back-off sleep is a goroutine (context.AfterFunc) that
+// has to run before the sleep's timer (16 ms for the first back-off) fires; on a loaded machine it
+// may lose that race, and SendBatch legitimately goes on with the next round. The harness cannot see
+// which of the two the select took, so a run that shows a next round after a round in which (as
+// scripted) every queued call with a retry-class answer had its own context done, and a back-off may
+// have been due, is repeated with little else running (see runBatchProp); an implementation that does
+// not watch the own contexts shows the next round every time.
+func (c *bCase) sleptThroughGiveUp(o bObs) bool {
+	if o.ownAt == nil {
+		return false
+	}
+	// rounds that were begun: something was queued, or a location found its region unavailable
+	begun := map[int]bool{}
+	for r, q := range o.qr {
+		if len(q) > 0 {
+			begun[r] = true
+		}
+	}
+	for k := range o.loc {
+		begun[k[0]] = true
+	}
+	for r := 0; r < len(o.qr) && r < len(c.rounds); r++ {
+		rd := &c.rounds[r]
+		if rd.cancel != 0 || !begun[r+1] {
+			continue
+		}
+		retry, backoff, allGone := 0, r >= 2, true
+		for _, id := range o.qr[r] {
+			k := rd.ans[id].kind
+			if !isRetryKind(k) {
+				continue
+			}
+			retry++
+			backoff = backoff || k == 'r'
+			if o.ownAt[id] > r || (id < len(c.noOwn) && c.noOwn[id]) {
+				allGone = false
+			}
+		}
+		if retry > 0 && backoff && allGone {
+			return true
+		}
+	}
+	return false
 }
 
 func genBlocked(cases *[]*bCase) {
@@ -1477,17 +1815,25 @@ func runBatchProp(prop, tier string, seed uint64, out *Out) {
 		genBackoffLadder(&cases)
 		genBlocked(&cases)
 		genInvalid(3, &cases)
+		n0 := len(cases)
 		if quick {
 			genRandom(rng, 30000, 4, true, &cases)
 		} else {
 			genRandom(rng, 300000, 5, true, &cases)
 		}
+		// (after the existing cases) own contexts ending inside a back-off sleep
+		n1 := len(cases)
+		genSleepOwn(3, &cases)
+		genRandomSleepOwn(NewRNG(seed, "c07-sleepown"), cases[n0:n1], 8, &cases)
 	} else if prop == "C13" {
 		// C13 at the SendBatch level: a call whose own context ends (before the batch, during the
 		// wait, while its region is located) is reported failed — its slot and allOK agree
 		genOwnCtx(&cases)
 		genOwnLocate(&cases)
 		genCancels(&cases, rng, 400)
+		// ... or ends inside a back-off sleep: when nobody waits for the calls to be retried any more
+		// SendBatch returns, each of them reported failed with the error it was given
+		genSleepOwn(2, &cases)
 	} else if prop == "C02" {
 		// C02 at the SendBatch level: the slot of a call carries that call's own answer, also when
 		// other calls of the batch are retried or cannot be located in a retry round
@@ -1518,6 +1864,7 @@ func runBatchProp(prop, tier string, seed uint64, out *Out) {
 		}
 	}
 	lines := make([]string, len(cases))
+	again := make([]bool, len(cases))
 	sem := make(chan struct{}, 192)
 	var wg sync.WaitGroup
 	for i, c := range cases {
@@ -1529,7 +1876,36 @@ func runBatchProp(prop, tier string, seed uint64, out *Out) {
 		go func(i int, c *bCase) {
 			defer wg.Done()
 			defer func() { <-sem }()
-			lines[i] = c.line(runBatchCase(c))
+			o := runBatchCase(c)
+			lines[i] = c.line(o)
+			again[i] = c.sleptThroughGiveUp(o)
+		}(i, c)
+	}
+	wg.Wait()
+	// the runs whose outcome may have been decided by the scheduler (see sleptThroughGiveUp): again,
+	// a few at a time, up to three times; the last observation counts. Bounded: when very many runs
+	// show it, it is not the scheduler.
+	sem = make(chan struct{}, 6)
+	budget := 1500
+	for i, c := range cases {
+		if !again[i] {
+			continue
+		}
+		if budget--; budget < 0 {
+			break
+		}
+		wg.Add(1)
+		sem <- struct{}{}
+		go func(i int, c *bCase) {
+			defer wg.Done()
+			defer func() { <-sem }()
+			for k := 0; k < 3; k++ {
+				o := runBatchCase(c)
+				lines[i] = c.line(o)
+				if !c.sleptThroughGiveUp(o) {
+					return
+				}
+			}
 		}(i, c)
 	}
 	wg.Wait()
